@@ -55,6 +55,9 @@ CLAIMED = {
  "C19": ("Narrow partial: the r||s encoding lib/xmldsig emits for ECDSA (EcdsaSignature.PackFixed) is 2*ceil(bits/8) bytes for every r, s that fit the curve size, big-endian r then s, and UnpackEcdsaSignature inverts it.",
          "Trusted: big.Int as 64-bit stand-in (curve sizes 1..8 bytes stand for 32/48/66), engine, z3. Canonicalisation proper (etree DOM, W3C exc-c14n) is outside: external reference program, string/DOM code.",
          "DESIGN.md §4 C19"),
+ "C10": ("Partial (acceptance conjuncts): the real TimeStampReq.ParseResponse / SanityCheckToken / unpackTokenInfo run with the ASN.1 decoder, the CMS signature check and the content extraction replaced by nondeterministic stubs (arbitrary results driven by symbolic inputs): a reply is accepted only if it decodes without trailing bytes, its status is granted / grantedWithMods, the token signature verifies, the token info decodes, the nonce equals the request's and the imprint equals the request's; a rejected reply yields no token; no panic on any stub behaviour.",
+         "Trusted: the stubs' contracts (asn1.Unmarshal, SignedData.Verify, ContentInfo.Bytes return arbitrary values of their types), big.Int 64-bit stand-in, engine, z3. No native replay exists for stubbed harnesses: counterexamples are re-executed concretely in the interpreter. Failover order, legacy Microsoft replies, verification-side time handling, X.509 validity: not yet covered in this revision.",
+         "DESIGN.md §4 C10"),
 }
 
 NOT_APPLICABLE = {
